@@ -49,22 +49,24 @@ NotFitted == [m |-> "NotFitted"]
 Ok       == [m |-> "ok"]
 
 VARIABLES params, fitted, train, lastFit, costOf,   \* abstract (costOf: which scorer object a detector holds)
+          userFit,                                  \* abstract: the data of the last EXPLICIT fit of a scorer object by the user
           tunes,                                    \* does the detector in this slot tune on fit (follows clone)
           fitData, scores, costData,                \* hidden
           ret, exp, hist
-vars == <<params, fitted, train, lastFit, costOf, tunes, fitData, scores, costData, ret, exp, hist>>
+vars == <<params, fitted, train, lastFit, costOf, userFit, tunes, fitData, scores, costData, ret, exp, hist>>
 TunesOnFit(d) == tunes[d]
 CostOf(d) == costOf[d]
 
 Init ==
     /\ params = [d \in Dets |-> "p1"] /\ fitted = [d \in Dets |-> FALSE] /\ train = [d \in Dets |-> <<>>]
-    /\ lastFit = [c \in Costs |-> NoData]
+    /\ lastFit = [c \in Costs |-> NoData] /\ userFit = [c \in Costs |-> NoData]
     /\ costOf = [d \in Dets |-> IF Sharing = "shared" THEN "c0" ELSE Private(d)]
     /\ tunes = [d \in Dets |-> TunesInit(d)]
     /\ fitData = [d \in Dets |-> <<>>] /\ scores = [d \in Dets |-> None] /\ costData = [c \in Costs |-> NoData]
     /\ ret = None /\ exp = None /\ hist = <<>>
 
-Log(op, d, arg, e) == hist' = Append(hist, [op |-> op, obj |-> d, arg |-> arg, exp |-> e])
+Log(op, d, arg, e) == hist' = Append(hist, [op |-> op, obj |-> d, arg |-> arg, exp |-> e, alt |-> e])
+LogAlt(op, d, arg, e, a) == hist' = Append(hist, [op |-> op, obj |-> d, arg |-> arg, exp |-> e, alt |-> a])
 Term(m, d, tr, arg) == [m |-> m, ps |-> params[d], train |-> tr, arg |-> arg]
 
 \* ---- set_params: sktime's reset deletes every fitted attribute ----------------------------------
@@ -74,7 +76,7 @@ SetParams(d, ps) ==
        ELSE fitData' = [fitData EXCEPT ![d] = <<>>] /\ scores' = [scores EXCEPT ![d] = None]
     /\ fitted' = [fitted EXCEPT ![d] = FALSE] /\ train' = [train EXCEPT ![d] = <<>>]
     /\ ret' = Ok /\ exp' = Ok /\ Log("set_params", d, ps, Ok)
-    /\ UNCHANGED <<lastFit, costData, costOf, tunes>>
+    /\ UNCHANGED <<lastFit, costData, costOf, tunes, userFit>>
 
 \* ---- clone: the other slot becomes an unfitted copy with the same hyper-parameters ------------
 Clone(d) ==
@@ -85,6 +87,7 @@ Clone(d) ==
     /\ costOf' = [costOf EXCEPT ![o] = Private(o)]          \* the clone holds its own, unfitted scorer copy
     /\ tunes' = [tunes EXCEPT ![o] = tunes[d]]               \* ... and is of the same class
     /\ lastFit' = [lastFit EXCEPT ![Private(o)] = NoData] /\ costData' = [costData EXCEPT ![Private(o)] = NoData]
+    /\ userFit' = [userFit EXCEPT ![Private(o)] = NoData]
     /\ ret' = Ok /\ exp' = Ok /\ Log("clone", d, o, Ok)
 
 \* ---- fit / update ---------------------------------------------------------------------------
@@ -94,23 +97,23 @@ Fit(d, a) ==
     /\ scores' = scores
     /\ IF TunesOnFit(d)
        THEN /\ costData' = [costData EXCEPT ![CostOf(d)] = <<a>>] /\ lastFit' = [lastFit EXCEPT ![CostOf(d)] = <<a>>]
-       ELSE UNCHANGED <<lastFit, costData>>
+       ELSE UNCHANGED <<lastFit, costData, userFit>>
     /\ ret' = Ok /\ exp' = Ok /\ Log("fit", d, a, Ok)
-    /\ UNCHANGED <<params, costOf, tunes>>
+    /\ UNCHANGED <<params, costOf, tunes, userFit>>
 
 Update(d, a) ==
     /\ IF ~fitted[d] \/ fitData[d] = <<>>
        THEN /\ ret' = (IF fitData[d] = <<>> THEN NotFitted ELSE Ok) /\ exp' = NotFitted
-            /\ Log("update", d, a, NotFitted) /\ UNCHANGED <<fitted, train, fitData, lastFit, costData>>
+            /\ Log("update", d, a, NotFitted) /\ UNCHANGED <<fitted, train, fitData, lastFit, costData, userFit>>
        ELSE /\ Cols(a) = Cols(train[d][1])
             /\ train' = [train EXCEPT ![d] = Append(train[d], a)]
             /\ fitData' = [fitData EXCEPT ![d] = IF Leak = "update_replaces" THEN <<a>> ELSE Append(fitData[d], a)]
             /\ IF TunesOnFit(d)
                THEN /\ costData' = [costData EXCEPT ![CostOf(d)] = fitData'[d]]
                     /\ lastFit' = [lastFit EXCEPT ![CostOf(d)] = train'[d]]
-               ELSE UNCHANGED <<lastFit, costData>>
+               ELSE UNCHANGED <<lastFit, costData, userFit>>
             /\ ret' = Ok /\ exp' = Ok /\ Log("update", d, a, Ok) /\ UNCHANGED fitted
-    /\ UNCHANGED <<params, scores, costOf, tunes>>
+    /\ UNCHANGED <<params, scores, costOf, tunes, userFit>>
 
 \* ---- predict / transform / transform_scores -----------------------------------------------------
 \* the scorer is refitted IN PLACE on the input at every call
@@ -119,7 +122,7 @@ CallBody(m, d, a, c, seen, computed) ==
     IF fitData[d] = <<>>
     THEN /\ ret' = NotFitted /\ exp' = (IF fitted[d] THEN Term(m, d, train[d], <<a>>) ELSE NotFitted)
          /\ Log(m, d, a, IF fitted[d] THEN Term(m, d, train[d], <<a>>) ELSE NotFitted)
-         /\ UNCHANGED <<scores, costData, lastFit>>
+         /\ UNCHANGED <<scores, costData, lastFit, userFit>>
     ELSE /\ costData' = [costData EXCEPT ![c] = seen]
          /\ lastFit' = [lastFit EXCEPT ![c] = <<a>>]
          /\ IF m = "transform_scores" /\ Leak = "cached_scores" /\ scores[d] # None
@@ -128,7 +131,7 @@ CallBody(m, d, a, c, seen, computed) ==
          /\ exp' = (IF fitted[d] THEN Term(m, d, train[d], <<a>>) ELSE NotFitted)
          /\ Log(m, d, a, IF fitted[d] THEN Term(m, d, train[d], <<a>>) ELSE NotFitted)
 Call(m, d, a) ==
-    /\ UNCHANGED <<params, fitted, train, fitData, costOf, tunes>>
+    /\ UNCHANGED <<params, fitted, train, fitData, costOf, tunes, userFit>>
     /\ CallBody(m, d, a, CostOf(d), Refit(CostOf(d), a),        \* the data the scorer actually evaluates
                 [m |-> m, ps |-> params[d], train |-> fitData[d], arg |-> Refit(CostOf(d), a)])
 
@@ -143,7 +146,7 @@ FitCall(m, d, a) ==
        /\ lastFit' = [lastFit EXCEPT ![c] = <<a>>]
        /\ ret' = [term EXCEPT !.arg = costData'[c]] /\ scores' = [scores EXCEPT ![d] = ret']
        /\ exp' = term /\ Log(m, d, a, term)
-       /\ UNCHANGED <<params, costOf, tunes>>
+       /\ UNCHANGED <<params, costOf, tunes, userFit>>
 UpdatePredict(d, a) ==
     /\ fitted[d] /\ fitData[d] # <<>> /\ Cols(a) = Cols(train[d][1])
     /\ LET c == CostOf(d)
@@ -155,25 +158,30 @@ UpdatePredict(d, a) ==
           /\ lastFit' = [lastFit EXCEPT ![c] = <<a>>]
           /\ ret' = [m |-> "predict", ps |-> params[d], train |-> fd, arg |-> costData'[c]] /\ scores' = [scores EXCEPT ![d] = ret']
           /\ exp' = term /\ Log("update_predict", d, a, term)
-    /\ UNCHANGED <<params, fitted, costOf, tunes>>
+    /\ UNCHANGED <<params, fitted, costOf, tunes, userFit>>
 \* ---- copy.deepcopy of a (possibly fitted) detector: same abstract state, its own copy of the scorer
 DeepCopy(d) ==
     LET c == CostOf(d) pc == Private(d) IN
     /\ costOf' = [costOf EXCEPT ![d] = pc]
     /\ costData' = [costData EXCEPT ![pc] = costData[c]] /\ lastFit' = [lastFit EXCEPT ![pc] = lastFit[c]]
+    /\ userFit' = [userFit EXCEPT ![pc] = userFit[c]]
     /\ ret' = Ok /\ exp' = Ok /\ Log("deepcopy", d, "-", Ok)
     /\ UNCHANGED <<params, fitted, train, tunes, fitData, scores>>
 
 \* ---- the scorer objects used directly -----------------------------------------------------------
 ScorerFit(c, a) ==
-    /\ costData' = [costData EXCEPT ![c] = <<a>>] /\ lastFit' = [lastFit EXCEPT ![c] = <<a>>]
+    /\ costData' = [costData EXCEPT ![c] = <<a>>] /\ lastFit' = [lastFit EXCEPT ![c] = <<a>>] /\ userFit' = [userFit EXCEPT ![c] = <<a>>]
     /\ ret' = Ok /\ exp' = Ok /\ Log("scorer_fit", c, a, Ok)
     /\ UNCHANGED <<params, fitted, train, fitData, scores, costOf, tunes>>
+\* The property fixes the scorer's result by "the data given to the last fit".  Two readings are admitted: the last
+\* fit by anyone, a detector's in-place refit included (exp: what the code does), or the last fit by the USER, for an
+\* implementation whose detectors work on their own copy of the scorer (alt).  Only a third outcome is a violation.
 ScorerEvaluate(c) ==
     /\ ret' = (IF costData[c] = NoData THEN NotFitted ELSE [m |-> "evaluate", data |-> costData[c]])
     /\ exp' = (IF lastFit[c] = NoData THEN NotFitted ELSE [m |-> "evaluate", data |-> lastFit[c]])
-    /\ Log("scorer_evaluate", c, "-", IF lastFit[c] = NoData THEN NotFitted ELSE [m |-> "evaluate", data |-> lastFit[c]])
-    /\ UNCHANGED <<params, fitted, train, lastFit, fitData, scores, costData, costOf, tunes>>
+    /\ LogAlt("scorer_evaluate", c, "-", IF lastFit[c] = NoData THEN NotFitted ELSE [m |-> "evaluate", data |-> lastFit[c]],
+              IF userFit[c] = NoData THEN NotFitted ELSE [m |-> "evaluate", data |-> userFit[c]])
+    /\ UNCHANGED <<params, fitted, train, lastFit, fitData, scores, costData, costOf, tunes, userFit>>
 
 Next ==
     /\ Len(hist) < MaxLen
